@@ -34,7 +34,9 @@ class Skip(Expression):
                         out += Code('continue')
                     continue
 
-                with out.IF(STATUS):
+                # Only a match that consumed something counts as progress. (An
+                # empty match must not restart the loop, or it would never end.)
+                with out.IF(Code(STATUS, ' and ', POS != checkpoint)):
                     out += Code('continue')
 
                 if expr.can_partially_succeed():
